@@ -36,6 +36,7 @@ const (
 	opCond
 	opChan
 	opQuiesce
+	opIdle
 )
 
 type chanCase struct {
@@ -525,6 +526,20 @@ func (s *Sched) schedule() *Thread {
 		}
 		tm := s.earliestTimer()
 		if len(trs) == 0 {
+			// a thread waiting for idleness runs as soon as nothing else can, before time advances
+			var idle *Thread
+			for _, t := range s.threads {
+				if !t.done && t.op != nil && t.op.kind == opIdle {
+					idle = t
+					break
+				}
+			}
+			if idle != nil {
+				s.barrier(12)
+				idle.op = &Op{kind: opReady, desc: "idle"}
+				s.cur = idle
+				return idle
+			}
 			if tm != nil {
 				s.fire(tm)
 				continue
@@ -764,6 +779,22 @@ func WaitQuiescent() {
 		return
 	}
 	s.park(&Op{kind: opQuiesce, desc: "wait-quiescent"})
+}
+
+// WaitIdle blocks the calling thread until no other thread is enabled at the current
+// virtual time (pending timers do not matter): the system has settled for now.
+func WaitIdle() {
+	s := S
+	if s == nil || s.aborting {
+		return
+	}
+	s.park(&Op{kind: opIdle, desc: "wait-idle"})
+}
+
+// Settle lets d of virtual time pass and then waits until nothing else is runnable.
+func Settle(d time.Duration) {
+	Sleep(d)
+	WaitIdle()
 }
 
 // Failf records a property violation observed inside the execution.
